@@ -56,8 +56,12 @@ type Script struct {
 	HasStored  bool    `json:"has_stored"`
 	AfterStore string  `json:"after_stored,omitempty"` // "", "ok", "error"
 	AfterDel   string  `json:"after_deleted,omitempty"`
-	GoFirst    []Rule  `json:"go_first,omitempty"` // Go listener registered before the Lua host (MAIL and RCPT)
-	GoLast     []Rule  `json:"go_last,omitempty"`  // Go listener registered after it
+	// UseGlobal makes the before-handlers keep the address they decide on in a script-level
+	// global (no 'local'), spin, and then decide from the global: harmless as long as every
+	// session's handler call runs on a Lua state of its own.
+	UseGlobal bool   `json:"use_global,omitempty"`
+	GoFirst   []Rule `json:"go_first,omitempty"` // Go listener registered before the Lua host (MAIL and RCPT)
+	GoLast    []Rule `json:"go_last,omitempty"`  // Go listener registered after it
 }
 
 var tokens = []string{"aa", "bb", "cc", "dd", "ee"}
@@ -160,7 +164,11 @@ func luaStored(d Stored) string {
 func (s Script) Lua() string {
 	var b strings.Builder
 	table := func(rules []Rule, key string) {
-		fmt.Fprintf(&b, "  local a = %s\n", key)
+		if s.UseGlobal {
+			fmt.Fprintf(&b, "  scratch = %s\n  for i = 1, 3000 do spin = i end\n  local a = scratch\n", key)
+		} else {
+			fmt.Fprintf(&b, "  local a = %s\n", key)
+		}
 		for _, r := range rules {
 			fmt.Fprintf(&b, "  if string.find(a, %q, 1, true) then %s end\n", r.Token, luaOut(r.Out))
 		}
@@ -306,6 +314,7 @@ var scriptGen = rapid.Custom(func(t *rapid.T) Script {
 			s.Stored = append(s.Stored, SRule{Token: rapid.SampledFrom(tokens).Draw(t, "stok"), Do: storedGen.Draw(t, "sdo")})
 		}
 	}
+	s.UseGlobal = rapid.IntRange(0, 2).Draw(t, "useglobal") == 0
 	s.AfterStore = rapid.SampledFrom([]string{"", "", "ok", "error"}).Draw(t, "afterstored")
 	s.AfterDel = rapid.SampledFrom([]string{"", "", "ok", "error"}).Draw(t, "afterdel")
 	goOut := rapid.Custom(func(t *rapid.T) Out {
@@ -372,7 +381,7 @@ var prop = hx.Prop[Case]{
 	Quick: 200, Thorough: 1200,
 	Gen: func(t *rapid.T) Case {
 		c := Case{Script: scriptGen.Draw(t, "script"), Backend: rapid.SampledFrom([]string{"mem", "file"}).Draw(t, "backend")}
-		c.Parallel = rapid.IntRange(0, 4).Draw(t, "parallel") == 0
+		c.Parallel = rapid.IntRange(0, 3).Draw(t, "parallel") == 0
 		lo, hi := 1, 3
 		if c.Parallel {
 			lo, hi = 4, 8
